@@ -1131,8 +1131,8 @@ namespace chaiscript {
           if (u_size != match_size) {
             throw exception::eval_error("Incomplete unicode escape sequence");
           }
-          if (u_size == 4 && ch >= 0xD800 && ch <= 0xDFFF) {
-            throw exception::eval_error("Invalid 16 bit universal character");
+          if (ch >= 0xD800 && ch <= 0xDFFF) {
+            throw exception::eval_error(u_size == 4 ? "Invalid 16 bit universal character" : "Invalid 32 bit universal character");
           }
 
           if (ch < 0x80) {
@@ -1146,7 +1146,7 @@ namespace chaiscript {
             buf[1] = static_cast<char>(0x80 | ((ch >> 6) & 0x3F));
             buf[2] = static_cast<char>(0x80 | (ch & 0x3F));
             match.append(buf, 3);
-          } else if (ch < 0x200000) {
+          } else if (ch < 0x110000) {
             buf[0] = static_cast<char>(0xF0 | (ch >> 18));
             buf[1] = static_cast<char>(0x80 | ((ch >> 12) & 0x3F));
             buf[2] = static_cast<char>(0x80 | ((ch >> 6) & 0x3F));
